@@ -1,9 +1,11 @@
 package c16
 
 import (
+	"bytes"
 	"context"
 	"fmt"
 	"go/ast"
+	"go/build"
 	"go/importer"
 	"go/parser"
 	"go/token"
@@ -307,6 +309,10 @@ func (v *validator) validate(cs Case, ref *reference, res *genResult, st *stats,
 	bad := false
 	for _, gf := range res.Files {
 		if !strings.HasSuffix(gf.Path, ".go") {
+			continue
+		}
+		if !goToolIncludes(gf.Path, []byte(gf.Content)) {
+			// what `go build` leaves out (x_test.go, x_windows.go, ...) is not part of the program
 			continue
 		}
 		st.add(&st.Files, 1)
@@ -937,4 +943,16 @@ func joinFull(base, rel string) string {
 	}
 	p := strings.TrimSuffix(base, "/") + "/" + strings.TrimPrefix(rel, "/")
 	return p
+}
+
+// goToolIncludes reports whether `go build` for the current platform compiles the file (name suffixes _test, _GOOS,
+// _GOARCH and build constraints), asking go/build itself with the generated content served from memory.
+func goToolIncludes(p string, content []byte) bool {
+	if strings.HasSuffix(p, "_test.go") {
+		return false
+	}
+	ctx := build.Default
+	ctx.OpenFile = func(string) (io.ReadCloser, error) { return io.NopCloser(bytes.NewReader(content)), nil }
+	ok, err := ctx.MatchFile(path.Dir(p), path.Base(p))
+	return err != nil || ok
 }
